@@ -528,6 +528,15 @@ func (fi *FuncInfo) loadTerm(v *ssa.UnOp) *Term {
 				return symTerm(fi.T(whole).S + "." + FieldOf(a).Name())
 			}
 		}
+	case *ssa.Global:
+		// a package variable that is only ever given its initial value: that value
+		if gi := fi.P.initOnly(a); gi != nil && gi.fn != fi.Fn {
+			t := fi.P.Info(gi.fn).T(gi.val)
+			if t.IsConst() {
+				return t
+			}
+			return symTerm("init{" + t.S + "}")
+		}
 	case *ssa.FreeVar:
 		// captured variable: the cell lives in an enclosing function
 		if owner, al, mc := fi.resolveCell(a); al != nil {
@@ -1297,4 +1306,54 @@ func (fi *FuncInfo) inlineCond(call *ssa.Call) *Formula {
 		}
 	}
 	return f
+}
+
+type globalInit struct {
+	val ssa.Value
+	fn  *ssa.Function
+}
+
+// initOnly returns the initial value of a package variable of the analysed packages that nothing but its package's
+// initialiser stores to and whose address is used for nothing but loads; nil otherwise.
+func (p *Prog) initOnly(g *ssa.Global) *globalInit {
+	if p.globals == nil {
+		p.globals = map[*ssa.Global]*globalInit{}
+		bad := map[*ssa.Global]bool{}
+		nStores := map[*ssa.Global]int{}
+		for _, f := range p.Funcs {
+			for _, b := range f.Blocks {
+				for _, in := range b.Instrs {
+					for _, op := range in.Operands(nil) {
+						gg, ok := (*op).(*ssa.Global)
+						if !ok {
+							continue
+						}
+						switch x := in.(type) {
+						case *ssa.UnOp:
+							if x.Op == token.MUL {
+								continue
+							}
+						case *ssa.Store:
+							if x.Addr == ssa.Value(gg) && x.Val != ssa.Value(gg) {
+								nStores[gg]++
+								if f.Synthetic != "" && f.Name() == "init" && f.Pkg == gg.Pkg {
+									p.globals[gg] = &globalInit{x.Val, f}
+									continue
+								}
+							}
+						case *ssa.DebugRef:
+							continue
+						}
+						bad[gg] = true
+					}
+				}
+			}
+		}
+		for gg := range p.globals {
+			if bad[gg] || nStores[gg] != 1 {
+				delete(p.globals, gg)
+			}
+		}
+	}
+	return p.globals[g]
 }
